@@ -1598,3 +1598,17 @@ def _reuse_clip_box(repo, ob, failure):
 
 
 GENERATORS.insert(0, ("C08.clip.reuse_box", _reuse_clip_box))
+
+
+def _text_outside_root(repo, ob, failure):
+    """character data outside the root element never reaches the output (it would make it ill-formed): such input is an error"""
+    docs = ['<!DOCTYPE svg [<!ENTITY arrow "->">]><svg><rect wh="5"/></svg>', 'stray<svg><rect wh="5"/></svg>']
+    for doc in docs:
+        r = run_svgdx(repo, doc, args=("--no-auto-styles",))
+        head = r["out"].lstrip()
+        if r["rc"] == 0 and not head.startswith("<"):
+            return {"input": doc, "args": ["--no-auto-styles"], "observed": "output begins %r" % head[:40], "expected": "an error, or a document beginning with markup"}
+    return None
+
+
+GENERATORS.insert(0, ("C02.reader.no_text", _text_outside_root))
